@@ -77,3 +77,11 @@ Definition expected_dumpto : list bytes :=
    FlushHeaders, FlushAfterChunkWriter) is made on the raw writer *)
 Definition expected_bufio_asserts : list (bytes * bytes) :=
   [ (bs "writeRequest", bs "rw"); (bs "writeRequest", bs "rw"); (bs "writeBody", bs "rw") ].
+
+(* a cloned Dumper has a queue of its own; SetDumpOptions copies the value into the existing struct
+   (the one an earlier EnableDump built the Dumper around) and adopts the pointer only when there
+   is none yet *)
+Definition expected_shared_state : list (bytes * bytes) :=
+  [ (bs "Dumper.Clone ch", bs "make(chan *dumpTask, 20)");
+    (bs "Request.SetDumpOptions", bs "*r.dumpOptions = *opt");
+    (bs "Request.SetDumpOptions", bs "r.dumpOptions = opt") ].
